@@ -398,6 +398,30 @@ theorem exec_track (src : Src) (fs0 : FS) (tape : List Choice) (c : Cfg) (h : Tr
     unfold settle
     exact tau_track _ _ _ (tau_track _ _ _ (tau_track _ _ _ (tau_track _ _ _ h)))
 
+/-- control transitions do not touch the file system -/
+theorem tau_fs (src : Src) (c : Cfg) : (tau src c).fs = c.fs := by
+  rcases c with ⟨f, pc⟩
+  cases pc <;> simp only [tau]
+  case entry =>
+    by_cases hc : checkSrc src = true
+    · simp only [hc, Bool.not_true, Bool.false_eq_true, if_false]
+      cases f.dst with
+      | none => rfl
+      | some d => simp only; split <;> (try split) <;> rfl
+    · have hc' : checkSrc src = false := by simpa using hc
+      simp [hc']
+  case wipe => cases f.dst with
+    | none => rfl
+    | some d => simp only; split <;> rfl
+  case stageClean => cases f.tmp <;> rfl
+  case copy del => cases f.dst with
+    | none => rfl
+    | some d => simp only; split <;> rfl
+
+theorem settle_fs (src : Src) (c : Cfg) : (settle src c).fs = c.fs := by
+  unfold settle
+  rw [tau_fs, tau_fs, tau_fs, tau_fs]
+
 /-- a configuration that has returned stays as it is -/
 theorem exec_ret (src : Src) (tape : List Choice) (fs : FS) (r : Result) :
     exec src tape ⟨fs, .ret r⟩ = ⟨fs, .ret r⟩ := by
